@@ -231,8 +231,11 @@ def run_history(kind, hist, acc, via_ctor=False):
     name = node.name
     pool = set(in_orig) | set(FRESH) | set(out_orig) | set(FRESH_OUT)
     vs = []
+    from ..dsl import touch
+
     for bi, (attr, mapping) in enumerate(hist):
         try:
+            touch(node)  # the receiver has been used before each rename
             if attr == "inputs":
                 node = node.with_inputs(dict(mapping))
                 mi.apply(mapping)
